@@ -62,6 +62,22 @@ pub fn ribbon_case(max_segs: usize) -> BoxedStrategy<RibbonCase> {
             // occasionally one very long unbroken press (kept to the cheaper sample rates: the controller re-averages
             // its whole window on every sample)
             let mut rate_idx = rate_idx;
+            // occasionally one short segment repeated many times (hundreds of taps / glitches in a row)
+            if huge.is_none() && softpot_idx == 0 && (pullup_factor as u32) % 7 == 0 {
+                let reps = [255usize, 256, 257, 300, 64][(dropper_frac * 4.99) as usize % 5];
+                let mut s0 = segs[0].clone();
+                if !matches!(s0.len, RunLen::Glitch(_) | RunLen::Tap(_)) {
+                    s0.len = RunLen::Glitch(2);
+                }
+                if let RunLen::Tap(f) = s0.len {
+                    s0.len = RunLen::Tap(f.min(0.2));
+                }
+                let cheap = [0u8, 1, 2, 3, 4, 5, 6, 7, 16, 17, 18, 19, 20];
+                rate_idx = cheap[rate_idx as usize % cheap.len()];
+                let mut burst = vec![s0; reps];
+                burst.extend(segs.drain(..));
+                segs = burst;
+            }
             if let Some(k) = huge {
                 let cheap = [0u8, 1, 2, 3, 4, 5, 6, 7, 16, 17, 18, 19, 20];
                 rate_idx = cheap[rate_idx as usize % cheap.len()];
